@@ -79,6 +79,36 @@ pub fn fstar() -> Vec<BigUint> {
     ]
 }
 
+/// Field values with a limb structure that boundary grids of the form 2^k +- 1 do not have: one 64-bit limb
+/// forced to all zeros or all ones and the others random, pairs in the upper half that differ only in their
+/// top limb, values just below and above multiples of small numbers of p's neighbourhood. Canonical (< p).
+pub fn limb_patterns(seed: u64) -> Vec<BigUint> {
+    let mut r = SplitMix(seed ^ 0x11b);
+    let mut v = vec![];
+    for limb in 0..4usize {
+        for pat in [0u64, u64::MAX] {
+            let mut l = [r.next_u64(), r.next_u64(), r.next_u64(), r.next_u64() >> 3];
+            l[limb] = if limb == 3 { pat >> 3 } else { pat };
+            let mut bytes = vec![];
+            for x in l {
+                bytes.extend_from_slice(&x.to_le_bytes());
+            }
+            v.push(BigUint::from_bytes_le(&bytes) % p());
+        }
+    }
+    // upper half (negative in the signed reading), same low limbs, different top limb
+    let low = BigUint::from(r.next_u64()) + (BigUint::from(r.next_u64()) << 64) + (BigUint::from(r.next_u64()) << 128);
+    let top = (p() >> 192) - big(1);
+    v.push((&low + (&top << 192)) % p());
+    v.push((&low + ((&top - big(1)) << 192)) % p());
+    // a value whose double, triple ... lands just above p
+    v.push((p() + big(5)) / big(2));
+    v.push((p() + big(7)) / big(3));
+    v.sort();
+    v.dedup();
+    v
+}
+
 /// splitmix64: deterministic pseudo-random stream owned by the harness (seeded by VERIF_SEED).
 pub struct SplitMix(pub u64);
 impl SplitMix {
